@@ -107,6 +107,7 @@ impl StateRanking for PRank {
             RankKind::Natural => a.0.count_ones().cmp(&b.0.count_ones()).then_with(|| a.0.cmp(&b.0)),
             RankKind::Reverse => b.0.cmp(&a.0),
             RankKind::Random(seed) => hash2(a, &seed).cmp(&hash2(b, &seed)),
+            RankKind::Flat => Ordering::Equal,
         }
     }
 }
